@@ -21,6 +21,7 @@ CFG = {
             "private numbers, DECSTR, XTSAVE/XTRESTORE, DECSC/DECRC, movement, erase, SGR, requests, numbers beyond the 65535 clamp, 47/1047/1048), "
             "full-screen sessions (start, work, clean exit / crash + RIS / restart), noise inside the random scripts; release-events / repeat-events "
             "(every special key x 4 modifier sets, ASCII keys plain/Ctrl/Alt, other scripts, decoded kitty release reports). "
+            "Round 4: keypad-keys (29 key codes x 8 modifier sets x Num/Caps Lock x bare / legend text / repeat), decoded kitty keypad reports, keypad keys after child scripts. "
             "Non-trivial = something is written towards the child; distinct by op line.",
     "trusted_base": ["unicode.IsLower etc. are parameters of the model (structure Uni)",
                      "bytes -> sequences: the real ansi parser in the harness; in Lean the parser model of C02 (Props/C13Parse) for special keys, ASCII keys, SGR mouse reports, paste markers, text; "
@@ -52,8 +53,13 @@ CFG = {
                   "(every xterm legacy report the encoder writes, as bytes, parses back from ground to exactly that sequence; kernel decide), sgr_mouse_report_parses_back (any button / position < 2^63, "
                   "via C02.csi_roundtrip and decimal = digitsOf), paste_markers_parse_back, text_parses_back, alt_char_parses_back + alt_domain_is_parser_domain (the Alt exclusions of the round-trip "
                   "domain are exactly the bytes the parser's escape state does not dispatch). "
-                  "KNOWN FINDING F413 (Witness/F413, oracle [keypad]): keypad keys delivered as key codes of their own are written only through their text and DECKPAM/DECKPNM select nothing "
-                  "(keypad_maps_identical, keypad_keys_dropped, keypad_mode_selects_full_fails) - the keypad clause of the property is false of the current code. "
+                  "Round 4: F413 FIXED (/repo 77b235a, keypad block of encodeXterm + two tables): Props/C13Keypad - keypad_application_mode (DECKPAM, no Shift/Alt/Ctrl/NumLock: SS3 + xterm's final, "
+                  "any event shape / Uni), keypad_is_its_legend (otherwise the key is encoded exactly as the key its legend names, so every theorem about ordinary keys transfers), "
+                  "keypad_mode_selects (the statement that was the witness of F413, now a theorem; xterm's Num Lock override explicit), keypad_roundtrip (29 keypad keys x 8 modifier sets x Num Lock x 3 shapes x 4 modes, "
+                  "kernel decide over the regenerated tables: application code, or bytes of the legend key + its round trip; Begin = CSI E / SS3 E / CSI 1;m E decoded back), table theorems in both directions; "
+                  "Props/C13KeypadPipe - the keypad reports parse back through the parser model, keypad_follows_child_stream (modes as last selected by the child's stream); Witness/F413 keeps the regression statements. "
+                  "encodeXterm_body_eq_model re-proved compositionally (keypad prefix evaluated symbolically + coreBody = encodeXtermCore for both environment shapes). "
+                  "F513 fixed (dd2d171, root decodeKey: SS3 E = Begin) so that Begin under DECCKM reads back. The oracle judges a keypad key by Spec.keypadJudgedAs (application code, or as the event of its legend key). "
                   "Observations, not defects of the property: DECSTR / XTSAVE / XTRESTORE unimplemented (select nothing), Alt + text production "
                   "is sent as ESC + key. Modelled not verified: parser, unicode tables, pty write.",
     "assumptions": ["Key.Text and the strings written are valid UTF-8"],
